@@ -654,6 +654,11 @@ func opcodeCheckLockTimeVerify(op *ParsedOpcode, t *thread) error {
 		return errs.NewError(errs.ErrNegativeLockTime, "negative lock time: %d", lockTime.Int64())
 	}
 
+	// The comparison needs the transaction being validated.
+	if t.tx == nil {
+		return errs.NewError(errs.ErrInvalidParams, "tx must be supplied for checklocktimeverify")
+	}
+
 	// The lock time field of a transaction is either a block height at
 	// which the transaction is finalised or a timestamp depending on if the
 	// value is before the interpreter.LockTimeThreshold.  When it is under the
